@@ -325,9 +325,8 @@ func (s *Stack) ForEach(expr string, fn func(index int, value any) error) error 
 		return nil
 	case reflect.Map:
 		// a Go map has no order of its own: the items are visited in the order of their keys
-		keys := sortedMapKeys(rv)
-		for i, key := range keys {
-			if err := fn(i, rv.MapIndex(key).Interface()); err != nil {
+		for i, entry := range sortedMapEntries(rv) {
+			if err := fn(i, entry.val.Interface()); err != nil {
 				return err
 			}
 		}
@@ -340,12 +339,18 @@ func (s *Stack) ForEach(expr string, fn func(index int, value any) error) error 
 
 // Helpers
 
-// sortedMapKeys returns the keys of a map in a fixed order: by kind, then by value
-// (numbers numerically, strings and everything else by their text).
-func sortedMapKeys(rv reflect.Value) []reflect.Value {
-	keys := rv.MapKeys()
-	sort.SliceStable(keys, func(i, j int) bool { return mapKeyLess(keys[i], keys[j]) })
-	return keys
+type mapEntry struct{ key, val reflect.Value }
+
+// sortedMapEntries returns the entries of a map in a fixed order of their keys: by kind, then by value
+// (numbers numerically, strings and everything else by their text). The values are taken while
+// iterating: an entry whose key is NaN cannot be looked up again by that key.
+func sortedMapEntries(rv reflect.Value) []mapEntry {
+	entries := make([]mapEntry, 0, rv.Len())
+	for iter := rv.MapRange(); iter.Next(); {
+		entries = append(entries, mapEntry{iter.Key(), iter.Value()})
+	}
+	sort.SliceStable(entries, func(i, j int) bool { return mapKeyLess(entries[i].key, entries[j].key) })
+	return entries
 }
 
 func mapKeyLess(a, b reflect.Value) bool {
@@ -364,7 +369,11 @@ func mapKeyLess(a, b reflect.Value) bool {
 	case reflect.Uint, reflect.Uint8, reflect.Uint16, reflect.Uint32, reflect.Uint64, reflect.Uintptr:
 		return a.Uint() < b.Uint()
 	case reflect.Float32, reflect.Float64:
-		return a.Float() < b.Float()
+		af, bf := a.Float(), b.Float()
+		if af != af {
+			return bf == bf // NaN comes before every number
+		}
+		return af < bf
 	case reflect.String:
 		return a.String() < b.String()
 	}
